@@ -6,6 +6,7 @@
 mod core;
 mod explore;
 mod props;
+mod selftest;
 
 use crate::core::{Ctx, Outcome, Tier};
 use serde_json::Value;
@@ -75,6 +76,9 @@ fn main() {
         std::process::exit(2);
     }
     let prop = args[0].clone();
+    if prop == "selftest" {
+        std::process::exit(selftest::run());
+    }
     let mut tier = match std::env::var("VERIF_TIER").ok().as_deref() {
         Some("thorough") => Tier::Thorough,
         _ => Tier::Quick,
